@@ -60,6 +60,9 @@ type vfGccScript struct {
 	// PCloseErr: the injected (recording) pacer's Close returns an error (the estimator's Close reports it; the estimator
 	// is closed all the same: WriteRTCP fails with the closed error, a second Close is harmless)
 	PCloseErr bool `json:"pcloseerr"`
+	// Loopback: the stream's transport acknowledges every packet at once - its writer feeds an RFC 8888 report about the
+	// packet to WriteRTCP synchronously, from inside the Write the pacer is performing (an in-memory loopback transport)
+	Loopback bool `json:"loopback"`
 	// level conc
 	Feeders    int `json:"feeders"`
 	Writes     int `json:"writes"`
@@ -550,8 +553,17 @@ func vfGccRunSeq(sc *vfGccScript, lg *vfGccLog, d *vfGccDriver) {
 	if sc.Fb == "twcc" {
 		info.RTPHeaderExtensions = []interceptor.RTPHeaderExtension{{URI: vfGccTWCCURI, ID: vfGccExtID}}
 	}
-	r.w = d.addStream(info, interceptor.RTPWriterFunc(func(_ *rtp.Header, b []byte, _ interceptor.Attributes) (int, error) {
+	r.w = d.addStream(info, interceptor.RTPWriterFunc(func(h *rtp.Header, b []byte, _ interceptor.Attributes) (int, error) {
 		r.sunk.Add(1)
+		if sc.Loopback && h != nil {
+			now := time.Now()
+			secs := uint64(now.Unix()) + 2208988800 //nolint:gosec
+			frac := uint64(now.Nanosecond()) << 32 / 1000000000 //nolint:gosec
+			rep := &rtcp.CCFeedbackReport{SenderSSRC: 7, ReportTimestamp: uint32((secs<<32 | frac) >> 16), //nolint:gosec
+				ReportBlocks: []rtcp.CCFeedbackReportBlock{{MediaSSRC: h.SSRC, BeginSequence: h.SequenceNumber,
+					MetricBlocks: []rtcp.CCFeedbackMetricBlock{{Received: true, ArrivalTimeOffset: 3}}}}}
+			_ = d.feed([]rtcp.Packet{rep}) // (not logged: it runs on the pacer's goroutine, concurrently with the script)
+		}
 
 		return len(b), nil
 	}))
